@@ -661,6 +661,13 @@ pub fn run_plan(ctx: &mut Ctx, sc: &Value, plan: &Value, tag: &str) -> Sub {
                 let r = ex.sub.results[ci][si].clone();
                 let is_victim = has_fault && ci == fault_client && Some(si) == faulted_op;
                 match r {
+                    Some(r) if r["r"] == "cancelled" => {
+                        // the caller dropped the future of the call at some await point: like a kill of that one call,
+                        // the key is exactly old or new, and the rest of the program goes on
+                        *ex.sub.faults.entry("future_cancelled".into()).or_insert(0) += 1;
+                        settle_victim(&mut ex.it, &st2, &pre, &mut ex.sub, "a cancelled future");
+                        ex.it.m.index_faulted = false;
+                    }
                     Some(r) if !is_victim => {
                         ex.it.judge(&st2, &r, pre);
                     }
@@ -1610,6 +1617,21 @@ fn gen_abandon(rng: &mut Rng) -> Value {
     let mut post = Vec::new();
     for fl in PURE {
         post.push(json!({"k":"audit","bin":fl.0,"mode":fl.1,"what":["metadata","read","list"]}));
+    }
+    if f.1 == "async" && rng.chance(1, 3) {
+        // cancellation: the future of a whole call (one-shot write, streamed write + commit, removal) is dropped after k polls
+        let mut st = match rng.below(4) {
+            0 => json!({"k":"api","op":"remove","key":0,"mode":"async"}),
+            1 => json!({"k":"api","op":"write","entry":"opts","key":*rng.pick(&[0, 1]),"val":0,"mode":"async","opts":{"meta":{"c":1}},"chunks":chunking(rng, len).unwrap_or(vec![len])}),
+            _ => json!({"k":"api","op":"write","entry":*rng.pick(&["write","write_algo"]),"key":*rng.pick(&[0, 1]),"val":0,"mode":"async"}),
+        };
+        st["cancel_polls"] = json!(rng.range(1, 14));
+        let mut steps2 = vec![st];
+        if rng.chance(1, 2) {
+            steps2.push(json!({"k":"api","op":"write","entry":"write","key":1,"val":1,"mode":"async"}));
+        }
+        return json!({"keys":keys,"vals":vals,"prelude":prelude,"clients":[{"bin":f.0,"steps":steps2}],"post":post,"strict_tmp":true,
+               "plan":{"kind":"single","faults":[],"schedule":{"policy":"first"}},"oracle":"strict"});
     }
     if rng.chance(1, 8) {
         // a commit that fails because of an I/O error is also a writer that is gone: one keyed write, one errno somewhere in it
